@@ -120,3 +120,34 @@ func HarnessC11History() {
 	vx.Assert(err == nil && zzKey(viaFile) == k0, "ApplyForFile differs from Apply on the parsed tree: "+zzDiff(zzKey(viaFile), k0))
 	vx.Cover("history")
 }
+
+// HarnessC11EntryPoints: the byte-stream entry points give the result of Apply
+// on dom.Parse of the same bytes, also for bytes where parsing does more than
+// html.Parse does (decomposed accents, soft hyphens, non-ASCII scripts, a
+// charset declaration).
+func HarnessC11EntryPoints() {
+	long := "plenty of plain words make this paragraph long enough to be kept as content of the page by the classifier, and a few more words follow here. "
+	body := []string{
+		"café résumé Ångström " + long,
+		"hy­phen­ated soft­hyphen " + long,
+		"한국어 단어 몇 개 " + long + " 中文文字",
+		"plain ascii only " + long,
+	}[vx.Choose("body", 4)]
+	head := []string{"<title>Títle wo­rds of the page</title>", `<meta charset="utf-8"><title>Title words of the page</title>`, `<meta http-equiv="Content-Type" content="text/html; charset=iso-8859-1"><title>Title words</title>`}[vx.Choose("head", 3)]
+	page := "<html><head>" + head + "</head><body><div><p>" + body + `</p><img src="i.png" alt="ált"><p>` + body + "</p></div></body></html>"
+	algo := vx.Choose("algo", 2)
+	parsed, err := dom.Parse(strings.NewReader(page))
+	vx.Assert(err == nil && parsed != nil, "dom.Parse failed")
+	if parsed == nil {
+		return
+	}
+	ref, _ := Apply(parsed, zzOptsFor(algo, true, "http://h.t/story/2"))
+	k0 := zzKey(ref)
+	viaReader, err := ApplyForReader(strings.NewReader(page), zzOptsFor(algo, true, "http://h.t/story/2"))
+	vx.Assert(err == nil && zzKey(viaReader) == k0, "ApplyForReader differs from Apply on dom.Parse of the same bytes: "+zzDiff(zzKey(viaReader), k0))
+	path, done := vx.TempFile(page)
+	viaFile, err := ApplyForFile(path, zzOptsFor(algo, true, "http://h.t/story/2"))
+	done()
+	vx.Assert(err == nil && zzKey(viaFile) == k0, "ApplyForFile differs from Apply on dom.Parse of the same bytes: "+zzDiff(zzKey(viaFile), k0))
+	vx.Cover("entrypoints")
+}
